@@ -261,7 +261,7 @@ def run(ctx: Ctx) -> int:
     rng = random.Random(ctx.seed * 1000003 + 31)
     cases = []
     for k, p in enumerate(printed):
-        n = 1 if tier == "quick" else 2
+        n = 2 if tier == "thorough" and p["mode"] == "blocks" else 1
         cases.append({"kind": "convert", "inst": p["inst"], "origin": "tlc", "salt": k,
                       "embs": [ORIGIN0[(k + 3 * j) % len(ORIGIN0)] for j in range(n)]})
     for k, c in enumerate(random_cases(rng, 150 if tier == "quick" else 1500)):
@@ -281,7 +281,7 @@ def run(ctx: Ctx) -> int:
         "polygons are given as closed vertex lists (first vertex repeated), in either orientation, padded with -1 as the loaders pad them",
         "pins lie on the boundary of the floorplan and span it (FloorSet), so the extent of the pins is the bounding extent; with no pins the "
         "expected die is the extent of the blocks",
-        "one (quick) or two (thorough) origin-0 float embeddings per instance; numbers compared in 1/1000 lattice units (weights in 1/1000)",
+        "one origin-0 float embedding per instance (two for the blocks-mode instances in thorough), rotating; numbers compared in 1/1000 lattice units (weights in 1/1000)",
         "weight 0 -> 1, self connections and repeated connections are specified as the code treats them (no source documents them)",
         "the dataset classes of loaders/prime.py and lite.py need the downloaded FloorSet files and are not run; floorplan_collate is run on "
         "synthetic integer tensors",
